@@ -69,17 +69,27 @@ def build(cfg):
     th = FakeBinaryTherm(K=cfg.get("K", 1e5), xe0=cfg.get("xe0", 0.005), se=cfg.get("se", 0.0), T0=cfg.get("T0", 1000.0),
                          xb=cfg.get("xb", 0.25), xlim=cfg.get("xlim", 0.3), D=cfg.get("D", 1e-17), per_phase=per,
                          faults=FaultPlan(cfg.get("faults")))
-    m = PrecipitateModel(phases=names, elements=["B"])
-    m.setThermodynamics(th)
-    m.setInitialComposition(cfg.get("x0", 0.02))
     temp = cfg.get("temp", ("const", 1000))
     if temp[0] == "const":
-        m.setTemperature(temp[1])
+        targs = (temp[1],)
     elif temp[0] == "array":
-        m.setTemperature(temp[1], temp[2])
+        targs = (temp[1], temp[2])
     else:
         pts_t, pts_T = temp[1], temp[2]
-        m.setTemperature(lambda t, a=pts_t, b=pts_T: float(np.interp(t / 3600.0, a, b, b[0], b[-1])))
+        targs = (lambda t, a=pts_t, b=pts_T: float(np.interp(t / 3600.0, a, b, b[0], b[-1])),)
+    if cfg.get("temp_via", "setter") == "constructor":
+        from kawin.precipitation.PrecipitationParameters import TemperatureParameters
+        import io, contextlib
+        with contextlib.redirect_stdout(io.StringIO()):
+            tp = TemperatureParameters(*targs)
+        m = PrecipitateModel(phases=names, elements=["B"], temperatureParameters=tp)
+    else:
+        m = PrecipitateModel(phases=names, elements=["B"])
+        import io, contextlib
+        with contextlib.redirect_stdout(io.StringIO()):
+            m.setTemperature(*targs)
+    m.setThermodynamics(th)
+    m.setInitialComposition(cfg.get("x0", 0.02))
     m.setVolumeAlpha(cfg.get("VmA", 1e-5), VolumeParameter.MOLAR_VOLUME, 4)
     for p in ph:
         m.setInterfacialEnergy(p.get("gamma", 0.05), p["name"])
@@ -102,6 +112,14 @@ def build(cfg):
 
 
 def sched(cfg, t):
+    if cfg.get("retemp"):
+        # constant temperature re-specified before every solve call: the row at a call boundary belongs to the earlier call
+        acc = 0.0
+        for (span, _), T in zip(cfg["calls"], cfg["retemp"]):
+            acc += span
+            if t <= acc * (1 + 1e-12):
+                return float(T)
+        return float(cfg["retemp"][-1])
     temp = cfg.get("temp", ("const", 1000))
     if temp[0] == "const":
         return float(temp[1])
@@ -116,7 +134,9 @@ def run(cfg):
     it = SolverType.RK4 if cfg.get("iter", "euler") == "rk4" else SolverType.EXPLICITEULER
     try:
         first = True
-        for (span, maxfrac) in cfg["calls"]:
+        for ci, (span, maxfrac) in enumerate(cfg["calls"]):
+            if cfg.get("retemp"):
+                m.setTemperature(cfg["retemp"][ci])
             if first:
                 m.setup()      # idempotent public call; table builds made here belong to row 0, not to the first step
                 out["lookups0"] = len(th.lookupT)
